@@ -11,6 +11,7 @@ real_t spearman(const std::vector<int>& rx, const std::vector<int>& ry) {
     const real_t nn = n;
     std::vector<int> buf(2 * n);                    // constant factor, integer context
     const int cells = n * int(buf.size());          // stays an integer
-    return 1 - (6 * sq) / (nn * (nn * nn - 1)) + 0 * cells;
+    buf.resize(cells > 0 ? cells : 1);
+    return 1 - (6 * sq) / (nn * (nn * nn - 1));
 }
 }   // namespace dsplib
